@@ -116,7 +116,8 @@ def generate(ctx):
             for cs in ((1,) if rng.random() < 0.8 else (1, 0)):
                 cases.append(Case('getptr %d %s %s' % (cs, hx(p), tt), {'tags': ['resolve', 'cs' if cs else 'ci'], 'doc': d, 'ptr': p, 'cs': cs}))
     if ctx.get('seed_index', 0) == 0:
-        for depth in (998, 999, 1000, 1001, 1002, 1500):
+        NL = nesting_limit(ctx['repo'])
+        for depth in (NL - 2, NL - 1, NL, NL + 1, NL + 2, NL + 500):
             for kind in ('arr', 'obj'):
                 d = 7
                 for _ in range(depth): d = [d] if kind == 'arr' else Obj([('a', d)])
